@@ -31,7 +31,8 @@ fn candidates(cfg: &NetCfg) -> Vec<(usize, usize)> {
 
 fn rep_kind(cfg: &NetCfg, a: usize, b: usize) -> String {
     let sh = cfg.shapes().unwrap();
-    format!("{}->{}", if sh[a].0.is_flat() { "flat" } else { "spatial" }, if sh[b].0.is_flat() { "flat" } else { "spatial" })
+    let differ = !sh[a].0.is_flat() && !sh[b].0.is_flat() && sh[a].0 != sh[b].0;
+    format!("{}->{}{}", if sh[a].0.is_flat() { "flat" } else { "spatial" }, if sh[b].0.is_flat() { "flat" } else { "spatial" }, if differ { " (different spatial shapes)" } else { "" })
 }
 
 fn predict_matches(net: &Network, cfg: &NetCfg, params: &[P], x: &[f32], raw: bool) -> Result<Option<(usize, f32, f64, f64)>, String> {
@@ -47,7 +48,7 @@ fn predict_matches(net: &Network, cfg: &NetCfg, params: &[P], x: &[f32], raw: bo
 
 fn values_case(rng: &mut Rng, idx: u64, out: &mut Out) {
     let acc = ACCS[(idx % 5) as usize];
-    let kind = ((idx / 5) % 3) as usize;
+    let kind = ((idx / 5) % 4) as usize;
     let depth = rng.range(2, 6);
     let acts = [Act::Tanh, Act::Sigmoid, Act::Linear, Act::Leaky, Act::Relu];
     let end_dense = rng.bool();
@@ -214,7 +215,7 @@ fn bookkeeping_case(rng: &mut Rng, idx: u64, out: &mut Out) {
 }
 
 fn gradient_case(rng: &mut Rng, idx: u64, out: &mut Out) {
-    let kind = (idx % 3) as usize;
+    let kind = (idx % 4) as usize;
     let acts = [Act::Tanh, Act::Sigmoid, Act::Linear, Act::Leaky];
     let depth = rng.range(2, 4);
     let mut cfg = chain(rng, kind, depth, &acts, false, true);
@@ -358,7 +359,7 @@ impl Monitor for C16 {
         vec![("values", tier.pick(90_000, 1_800_000)), ("bookkeeping", tier.pick(45_000, 900_000)), ("gradients", tier.pick(22_500, 450_000))]
     }
     fn rule(&self) -> &'static str {
-        "networks of depth 2..7 in which every layer input has the same element count (flat dense chains, spatial chains of 'same' convolutions / deconvolutions / 1x1 pools / deconvolution+pool pairs, mixed flat<->spatial chains on r*r elements). values: 1..2 connections drawn from ALL index pairs a <= b with equal counts (sources and targets disjoint), accumulation = case index mod 5; predict vs reference network where layer b processes combine(ordinary input, input fed to a) (reshaped row-major), within the running f32 bound. bookkeeping: scripts of 2..4 connect() calls biased towards same-target, same-source and chained pairs; after every call the prediction must equal the reference containing exactly the accepted connections (either reading of 'input fed to a' for chains), a call with a new source and a new target must be accepted, a discarded earlier connection is identified by re-evaluating the reference without it. gradients: additive accumulation, hooked backward vs dual-number derivative of the MSE of the reference WITH the skips. Distinct = distinct (network, connections | script) descriptors."
+        "networks of depth 2..7 in which every layer input has the same element count (flat dense chains, spatial chains of 'same' convolutions / deconvolutions / 1x1 pools / deconvolution+pool pairs, mixed flat<->spatial chains on r*r elements, spatial chains whose shapes differ at equal element count via stride-2 convolutions / deconvolutions). values: 1..2 connections drawn from ALL index pairs a <= b with equal counts (sources and targets disjoint), accumulation = case index mod 5; predict vs reference network where layer b processes combine(ordinary input, input fed to a) (reshaped row-major), within the running f32 bound. bookkeeping: scripts of 2..4 connect() calls biased towards same-target, same-source and chained pairs; after every call the prediction must equal the reference containing exactly the accepted connections (either reading of 'input fed to a' for chains), a call with a new source and a new target must be accepted, a discarded earlier connection is identified by re-evaluating the reference without it. gradients: additive accumulation, hooked backward vs dual-number derivative of the MSE of the reference WITH the skips. Distinct = distinct (network, connections | script) descriptors."
     }
     fn assumptions(&self) -> Vec<&'static str> {
         vec!["chained connections (a target that is also a source): both the raw and the accumulated reading of 'the input that was fed to layer a' are accepted", "multiplicative/subtractive/mean/overwrite accumulations are only checked on values (the property claims gradients for additive accumulation only)"]
